@@ -68,15 +68,35 @@ pub fn panic_signature(solver: &str, msg: &str, goal: Option<&MGoal>, prog: Opti
     None
 }
 
+/// Does the goal negate a predicate whose proof can reach (through impl where-clauses) a coinductive / auto trait?
+/// That is the situation in which SLG's negative subgoal ends up with delayed subgoals.
 fn negates_coinductive(g: &MGoal, p: &MProgram) -> bool {
+    fn reaches_coinductive(p: &MProgram, start: &str) -> bool {
+        let mut seen: Vec<String> = vec![];
+        let mut work = vec![start.to_string()];
+        while let Some(t) = work.pop() {
+            if seen.contains(&t) {
+                continue;
+            }
+            seen.push(t.clone());
+            if let Some(tr) = p.traits.iter().find(|x| x.name == t) {
+                if tr.coinductive || tr.auto {
+                    return true;
+                }
+            }
+            for im in p.impls.iter().filter(|im| im.head.tr == t) {
+                for w in &im.wheres {
+                    work.push(w.tr.clone());
+                }
+            }
+        }
+        false
+    }
     match g {
         MGoal::Not(inner) => {
             let mut ps = vec![];
             goal_preds(inner, &mut ps);
-            ps.iter().any(|q| {
-                let t = p.tr(&q.tr);
-                t.coinductive || t.auto
-            })
+            ps.iter().any(|q| reaches_coinductive(p, &q.tr))
         }
         MGoal::Forall(_, _, g) | MGoal::Exists(_, _, g) | MGoal::If(_, g) => negates_coinductive(g, p),
         MGoal::And(gs) => gs.iter().any(|g| negates_coinductive(g, p)),
